@@ -24,7 +24,8 @@ func peek(r io.Reader, n int) ([]byte, io.Reader, error) {
 	if r, ok := r.(io.ReadSeeker); ok {
 		pos, err := r.Seek(0, io.SeekCurrent)
 		if err != nil {
-			return nil, nil, err
+			// the source has a Seek method but cannot seek (a pipe, for example)
+			return peekBuffered(r, buf)
 		}
 		k, err := io.ReadFull(r, buf)
 		if err != nil && err != io.ErrUnexpectedEOF && err != io.EOF {
@@ -37,6 +38,10 @@ func peek(r io.Reader, n int) ([]byte, io.Reader, error) {
 		return buf[:k], r, nil
 	}
 
+	return peekBuffered(r, buf)
+}
+
+func peekBuffered(r io.Reader, buf []byte) ([]byte, io.Reader, error) {
 	k, err := io.ReadFull(r, buf)
 	if err != nil && err != io.ErrUnexpectedEOF && err != io.EOF {
 		return nil, nil, err
